@@ -429,7 +429,16 @@ def core_checksig(sig: bytes, pubkey: bytes, code: bytes, sv: str, tx: SynTx, ni
         digest = sighash_bip143(code, tx, nin, hashtype, amount)
     else:
         digest = sighash_legacy(code, tx, nin, hashtype)
-    return ecdsa_verify(pub, int.from_bytes(digest, "big"), rs[0], rs[1])
+    key = (pub, digest, rs)
+    hit = _VERIFY_CACHE.get(key)
+    if hit is None:
+        if len(_VERIFY_CACHE) > 200000:
+            _VERIFY_CACHE.clear()
+        hit = _VERIFY_CACHE[key] = ecdsa_verify(pub, int.from_bytes(digest, "big"), rs[0], rs[1])
+    return hit
+
+
+_VERIFY_CACHE = {}      # the same spend is evaluated under several flag sets and at two levels: pure function, memoised
 
 
 # ------------------------------------------------------------------------------------------------
@@ -1253,7 +1262,7 @@ def conditional_sweep(rng, tier):
 
 
 def random_scripts(rng, tier):
-    n = 6000 if tier == "quick" else 120000
+    n = 4000 if tier == "quick" else 120000
     for i in range(n):
         script, _ = gen_seq(rng, rng.randint(1, 12), 0, 0)
         st = [rng.choice(NUM_OPERANDS) for _ in range(rng.choice([0, 0, 1, 2, 4]))]
@@ -1645,7 +1654,7 @@ def build_spend(rng, kind, variants, flags, tweak, lax=False):
 
 
 def spend_cases(rng, tier):
-    n = 1500 if tier == "quick" else 30000
+    n = 800 if tier == "quick" else 30000
     i = 0
     for c in program_shape_cases(rng, tier):
         yield c
@@ -1739,9 +1748,9 @@ def encoding_sweeps(rng, tier):
     # hash types
     for ht in range(256):
         for sv in ("B", "W"):
-            for nin in (0, 1):
+            for nin in ((ht & 1,) if tier == "quick" else (0, 1)):
                 sg = sig_for(b"\xac", sv, ht, nin)
-                for fl in (0, FL["STRICTENC"], FL["DERSIG"] | FL["NULLFAIL"]):
+                for fl in ((0, FL["STRICTENC"]) if tier == "quick" else (0, FL["STRICTENC"], FL["DERSIG"] | FL["NULLFAIL"])):
                     yield EvalCase(fl, sv, b"\xac", [sg, key], tx, nin, 9, "hashtype/%02x" % ht)
     # DER mutations
     base = sig_for(b"\xac", "B", 1)
@@ -1753,10 +1762,14 @@ def encoding_sweeps(rng, tier):
         muts.append(base[:i] + b"\x00" + base[i:])
     for n in (0, 1, 8, 9, 10, 72, 73, 74):
         muts.append((base + b"\x00" * 80)[:n])
-    for m_ in muts:
-        for fl in (FL["DERSIG"], FL["STRICTENC"], FL["LOW_S"], FL["DERSIG"] | FL["NULLFAIL"], FL["LOW_S"] | FL["STRICTENC"]):
+    dflags = [FL["DERSIG"], FL["STRICTENC"], FL["LOW_S"], FL["DERSIG"] | FL["NULLFAIL"], FL["LOW_S"] | FL["STRICTENC"]]
+    for mi, m_ in enumerate(muts):
+        for fi, fl in enumerate(dflags):
+            if tier == "quick" and fi != mi % 5 and fi != (mi + 2) % 5:
+                continue                              # two of the five flag sets per mutation, rotating
             yield EvalCase(fl, "B", b"\xac", [m_, key], tx, 0, 9, "dermut")
-            yield EvalCase(fl, "B", b"\xac\x91", [m_, key], tx, 0, 9, "dermut_not")
+            if tier != "quick" or fi == mi % 5:
+                yield EvalCase(fl, "B", b"\xac\x91", [m_, key], tx, 0, 9, "dermut_not")
     # the same through CHECKMULTISIG 1-of-1 and 1-of-2 (key order / early exit)
     for m_ in muts[::7]:
         for fl in (FL["DERSIG"], FL["STRICTENC"] | FL["NULLDUMMY"], FL["NULLFAIL"] | FL["DERSIG"]):
@@ -1799,6 +1812,8 @@ def cms_opcount_cases(rng, tier):
         for variant in ("match_first", "match_last", "match_none", "wrong_msg", "two_sigs"):
             if variant == "two_sigs" and k < 3:
                 continue
+            if tier == "quick" and k == 20 and variant == "wrong_msg":
+                continue                              # same path as match_none, 20 verifications each
             m_ = 2 if variant == "two_sigs" else 1
             tried = {"match_first": 1, "match_last": k, "match_none": k, "wrong_msg": k, "two_sigs": k}[variant]
             tails = (("not", b"\xae", b"\x91"), ("verify", b"\xaf", b"\x51"), ("plain", b"\xae", b""))
@@ -1821,6 +1836,8 @@ def cms_opcount_cases(rng, tier):
                         else:                        # signatures in stack order: bottom one is checked last
                             sigs = [make_sig(rng, dg, 0, 1, "valid"), make_sig(rng, dg, k - 1, 1, "valid")]
                         for fi, fl in enumerate(flagsets):
+                            if tier == "quick" and k == 20 and fi > 0 and total != 202:
+                                continue
                             tag = "cms_opcount/%d/%s/%s/%d/pad%d" % (k, variant, tail_name, total, pad)
                             yield EvalCase(fl, "B", script, [b""] + sigs, tx, 0, 3, tag)
                             if fi == 0 or tier != "quick":
@@ -1867,7 +1884,7 @@ def junk_sig_batches(rng, tier):
     (one byte 01..10 / 81) or whose plain push occurs raw in the script (01 xx, 2-byte, 75/76-byte blobs).
     The valid signatures commit to Core's script code: only the PLAIN push of every blob of the batch is deleted,
     OP_1..OP_16 / OP_1NEGATE stay.  Yields SpendCases (bare and P2SH) and the matching single-script EvalCases."""
-    n_rounds = 250 if tier == "quick" else 5000
+    n_rounds = 120 if tier == "quick" else 5000
     flag_choices = [0, FL["DERSIG"], FL["NULLFAIL"], FL["STRICTENC"], FL["DERSIG"] | FL["NULLFAIL"], FL["STRICTENC"] | FL["NULLFAIL"],
                     FL["P2SH"] | FL["DERSIG"], FL["P2SH"], FL["NULLDUMMY"] | FL["LOW_S"], FL["P2SH"] | FL["STRICTENC"] | FL["NULLDUMMY"]]
     for rnd in range(n_rounds):
